@@ -40,8 +40,10 @@ NoneV == 9                \* Retry.redirect = None
 ConnectSyms == {"c_refused", "c_timeout", "c_boom"}
 SendSyms    == {"s_epipe", "s_reset", "s_oserr", "s_boom"}
 RecvSyms    == {"r_timeout", "r_reset", "r_eof", "r_garbage", "r_ssl", "r_boom"}
-ReplySyms   == {"ok_ka", "ok_close", "s503_ka", "s503_close", "r302_ka", "r302_close", "short",
-                "b_boom", "b_reset", "b_timeout"}
+\* replies; s503_ra_bad: 503 whose Retry-After value cannot be parsed (Retry.sleep raises InvalidHeader);
+\* s503_ra_boom: 503 with a valid Retry-After and an interrupt raised while urllib3 sleeps; ok_chunked: chunked framing
+ReplySyms   == {"ok_ka", "ok_close", "ok_chunked", "s503_ka", "s503_close", "s503_ra_bad", "s503_ra_boom",
+                "r302_ka", "r302_close", "short", "b_boom", "b_reset", "b_timeout"}
 \* the connection object cannot even be built after the slot was checked out (ConnectionCls constructor raises:
 \* http.client.InvalidURL for a host with a blank, or a BaseException)
 NewSyms     == {"n_invalid", "n_boom"}
@@ -150,6 +152,19 @@ StreamAll(w, k) ==
     IF ~w.rs[k].fp THEN [w |-> IF Has("C01_F1") THEN w ELSE WRelease(w, k), out |-> "ok"]
     ELSE ReadAll(w, k)
 
+\* read1 loops: "read1all"  while r.read1(): pass         "read1n"  while r.read1(2): pass
+\*              "read1cl"   read1(2) until the known Content-Length has been received (no final empty read; without
+\*                          a Content-Length, i.e. chunked, the caller can only loop until b"")
+\* The last byte of a Content-Length body arrives without http.client closing its response (CPython <= 3.12), so
+\* _raw_read closes it itself; the named deviation Read1EndDoesNotClose drops that, and "read1cl" never releases.
+Read1(w, k, how) ==
+    LET r == w.rs[k] IN
+    IF ~r.fp /\ r.rem THEN [w |-> WBodyFail(w, k), out |-> "ProtocolError"]
+    ELSE IF ~r.fp THEN [w |-> WRelease(w, k), out |-> "ok"]
+    ELSE IF r.fault = "none" /\ how = "read1cl" /\ r.rem /\ Has("Read1EndDoesNotClose")
+         THEN [w |-> [w EXCEPT !.rs[k].ker = FALSE, !.rs[k].rem = FALSE], out |-> "ok"]
+    ELSE ReadAll(w, k)
+
 \* close()
 CloseResp(w, k) ==
     LET w1 == [w EXCEPT !.rs[k].fp = FALSE] IN
@@ -164,6 +179,7 @@ Dispose(w, k, how) ==
     CASE how = "read" -> ReadAll(w, k) [] how = "read2rel" -> Read2Rel(w, k)
       [] how = "release" -> [w |-> WRelease(w, k), out |-> "ok"] [] how = "drain" -> DrainResp(w, k)
       [] how = "close" -> CloseResp(w, k) [] how = "stream" -> StreamAll(w, k)
+      [] how \in {"read1all", "read1n", "read1cl"} -> Read1(w, k, how)
 
 RetryInit(p) == CASE p = "F"  -> [total |-> FalseV, redir |-> 0, force |-> FALSE, ror |-> FALSE]
                   [] p = "0"  -> [total |-> 0, redir |-> NoneV, force |-> FALSE, ror |-> TRUE]
@@ -276,7 +292,9 @@ Send ==
 
 IsClose(sym) == sym \in {"ok_close", "s503_close", "r302_close"}
 PeerCloses(sym) == IsClose(sym) \/ sym = "short"
-StatusOf(sym) == IF sym \in {"r302_ka", "r302_close"} THEN "302" ELSE IF sym \in {"s503_ka", "s503_close"} THEN "503" ELSE "200"
+StatusOf(sym) == IF sym \in {"r302_ka", "r302_close"} THEN "302"
+                 ELSE IF sym \in {"s503_ka", "s503_close", "s503_ra_bad", "s503_ra_boom"} THEN "503" ELSE "200"
+RetryAfterOf(sym) == IF sym = "s503_ra_bad" THEN "bad" ELSE IF sym = "s503_ra_boom" THEN "boom" ELSE ""
 FaultOf(sym) == IF sym = "short" THEN "short" ELSE IF sym \in {"b_boom", "b_reset", "b_timeout"} THEN sym ELSE "none"
 
 (* ---- conn.getresponse(): status line + headers; http.client closes on Connection: close ---- *)
@@ -302,7 +320,10 @@ Recv ==
                 k == Len(resp) + 1
                 r == [live |-> FALSE, conn |-> NONE, hc |-> cur, sock |-> s, fp |-> TRUE,
                       ker |-> ~(StatusOf(sym) = "302" \/ sym = "b_timeout"), fault |-> FaultOf(sym),
-                      len0 |-> StatusOf(sym) = "302", rem |-> StatusOf(sym) # "302", status |-> StatusOf(sym)]
+                      len0 |-> StatusOf(sym) = "302", status |-> StatusOf(sym),
+                      \* rem: length_remaining is a number > 0 (Content-Length framing, body not delivered yet)
+                      rem |-> StatusOf(sym) # "302" /\ sym # "ok_chunked",
+                      chunked |-> sym = "ok_chunked", ra |-> RetryAfterOf(sym)]
                 w1 == [w EXCEPT !.rs = Append(@, r),
                                 !.sk[s].cut = PeerCloses(sym)]
                 \* will_close: http.client closes the connection object right away (the fd lingers in the response)
@@ -381,12 +402,17 @@ Finally ==
           ELSE pc' = "after" /\ UNCHANGED <<rof, outs, hist, att, plan>>
     /\ UNCHANGED <<cfg, ret, err, clean, pend, rcur, nd, inj, ncut>>
 
-(* ---- redirect / status-forcelist handling after a clean attempt ---- *)
+(* ---- redirect / retried-status handling after a clean attempt ---- *)
+(* Retry.is_retry: status_forcelist, or 503 with a Retry-After header while total is a positive number.       *)
+(* The retried response is drained (which hands a streamed response's connection back) BEFORE the back-off    *)
+(* sleep; the named deviation SleepBeforeDrain swaps the two, so that a failing sleep leaves urlopen with the   *)
+(* undrained response still owning its connection.                                                            *)
 After ==
     /\ pc = "after"
     /\ LET st == resp[rcur].status
+           ra == resp[rcur].ra
            isredir == st = "302"
-           isretry == st = "503" /\ ret.force
+           isretry == st = "503" /\ (ret.force \/ (ra # "" /\ ret.total # FalseV /\ ret.total > 0))
            r2 == IF isredir THEN [ret EXCEPT !.total = DecTotal(@), !.redir = IF @ = NoneV THEN @ ELSE @ - 1]
                  ELSE [ret EXCEPT !.total = DecTotal(@)]
            d == DrainResp(World, rcur) IN
@@ -395,13 +421,24 @@ After ==
             /\ resp' = [resp EXCEPT ![rcur].live = NeedsDisposal]
             /\ EndReq(st, "response", "none", rcur)
             /\ UNCHANGED <<queue, conns, socks, ret, inj, leases>>
-       ELSE \* response.drain_conn(), then raise MaxRetryError or recurse
+       ELSE IF ~Exhausted(r2) /\ ra # "" /\ Has("SleepBeforeDrain")
+       THEN \* deviation: the sleep comes first and fails; drain_conn() is never reached
+            /\ ret' = r2 /\ pc' = "sleep" /\ UNCHANGED <<queue, conns, socks, resp, inj, leases, rof, outs, hist>>
+       ELSE \* response.drain_conn(), then raise MaxRetryError, or sleep and recurse
             /\ queue' = d.w.q /\ conns' = d.w.cn /\ socks' = d.w.sk /\ resp' = d.w.rs /\ leases' = d.w.ls
             /\ ret' = r2 /\ UNCHANGED inj
             /\ IF d.w.full /\ cfg.block THEN EndReq("FullPoolError", "raised", "urllib3", 0)
                ELSE IF Exhausted(r2) THEN EndReq("MaxRetryError", "raised", "urllib3", 0)
-               ELSE pc' = "get" /\ UNCHANGED <<rof, outs, hist>>
+               ELSE pc' = (IF ra # "" THEN "sleep" ELSE "get") /\ UNCHANGED <<rof, outs, hist>>
     /\ UNCHANGED <<cfg, cur, plan, att, err, clean, rel, pend, rcur, nd, ncut>>
+
+(* ---- retries.sleep(response): honours Retry-After; the environment makes it fail ---- *)
+Sleep ==
+    /\ pc = "sleep"
+    /\ IF resp[rcur].ra = "bad"
+       THEN EndReq("InvalidHeader", "raised", "urllib3", 0) /\ UNCHANGED inj       \* parse_retry_after
+       ELSE inj' = TRUE /\ EndReq("Interrupt", "raised", "interrupt", 0)           \* BaseException inside time.sleep
+    /\ UNCHANGED <<cfg, queue, conns, socks, resp, cur, plan, att, ret, err, clean, rel, pend, rcur, nd, ncut, leases>>
 
 (* ---- the caller disposes of a returned response ---- *)
 DisposeResp ==
@@ -441,7 +478,7 @@ Finish ==
     /\ UNCHANGED <<cfg, queue, conns, socks, resp, rof, cur, plan, att, ret, err, clean, rel, pend, rcur, nd, inj,
                    outs, hist, ncut, leases>>
 
-Next == StartReq \/ PreFail \/ GetConn \/ Connect \/ Send \/ Recv \/ Preload \/ Ok \/ Except \/ Finally \/ After
+Next == StartReq \/ PreFail \/ Sleep \/ GetConn \/ Connect \/ Send \/ Recv \/ Preload \/ Ok \/ Except \/ Finally \/ After
         \/ DisposeResp \/ PeerCut \/ Finish
 Spec == Init /\ [][Next]_vars
 
@@ -458,7 +495,7 @@ OnlyUrllib3Errors  == \A i \in 1..Len(outs) : OnlyUrllib3On(outs[i])
 InterruptsPropagate == \A i \in 1..Len(outs) : InterruptsOn(outs[i])
 \* an interrupt in flight is never replaced: checked while it travels through except/finally
 InterruptInFlight  == (pc = "finally" /\ err = "Interrupt") => pend = "Interrupt"
-TypeOK == /\ pc \in {"idle", "prefail", "get", "connect", "send", "recv", "preload", "ok", "except", "finally", "after", "done"}
+TypeOK == /\ pc \in {"idle", "prefail", "get", "connect", "send", "recv", "preload", "ok", "except", "finally", "after", "sleep", "done"}
           /\ Len(queue) <= cfg.n
           /\ \A i \in 1..Len(queue) : queue[i] \in 0..Len(conns)
 =============================================================================
